@@ -135,3 +135,130 @@ theorem config_src_leaf : CfgSpec K wABC 13 [(0, 12), (3, 903)] (some [3]) := by
   cfg_finish
 
 end Pams.Src
+
+/-! ### `JsonRandom.random`: the random values of a configuration -/
+namespace Pams.Src
+open Pams Pams.Py Pams.Config
+variable {K : Type} [LinearOrder K] [NumOpsC K]
+
+/-- the generator: `random()` answers num atom 1, `gauss(mu, sigma)` num atom 2 -/
+def jrExt : Ext := fun st recv fn args =>
+  match recv, fn, args with
+  | .ref 2, "random", [] => some (.num (.atom 1), st)
+  | .ref 2, "gauss", [_, _] => some (.num (.atom 2), st)
+  | _, _, _ => none
+
+def jrHeap : Nat → String → Option Val :=
+  fun addr => if addr = 1 then (fun f => match f with
+    | "__class__" => some (.str "JsonRandom") | "prng" => some (.ref 2) | _ => none) else fun _ => none
+
+def jrEnv : Env := { prog := PamsGen.Code.prog, globals := globals, ext := jrExt }
+def jrSt : St := { heap := jrHeap, calls := [] }
+
+/-- the result and the draws made (name of each extern call, in order) -/
+def jrObs : Except Py.Err (Val × St) → Obs
+  | .ok (v, st) => .tuple [Obs.ofVal v, .tuple (st.calls.reverse.map (fun c => Obs.str c.fn))]
+  | .error e => .err e
+
+def jrPaths (v : Val) := obsPathsPG jrObs jrEnv FUEL "JsonRandom.random" [.ref 1, v] jrSt
+
+/-- valuation: the uniform draw `u`, the Gaussian draw `g`, the two numbers `a`, `b` of the specification -/
+def rhoJr (u g a b : K) : Rho K :=
+  { i := fun _ => 0, n := fun k => if k = 1 then u else if k = 2 then g else if k = 10 then a else b, b := fun _ => false }
+
+def na : Val := .num (.atom 10)
+def nb : Val := .num (.atom 11)
+
+theorem jrP_list : jrPaths (.list [na, nb]) = evalnf% (jrPaths (.list [na, nb])) := by kernel_rfl
+theorem jrP_list3 : jrPaths (.list [na, nb, na]) = evalnf% (jrPaths (.list [na, nb, na])) := by kernel_rfl
+theorem jrP_const : jrPaths (.dict [.str "const"] [.list [na]]) = evalnf% (jrPaths (.dict [.str "const"] [.list [na]])) := by kernel_rfl
+theorem jrP_unif : jrPaths (.dict [.str "uniform"] [.list [na, nb]]) = evalnf% (jrPaths (.dict [.str "uniform"] [.list [na, nb]])) := by kernel_rfl
+theorem jrP_norm : jrPaths (.dict [.str "normal"] [.list [na, nb]]) = evalnf% (jrPaths (.dict [.str "normal"] [.list [na, nb]])) := by kernel_rfl
+theorem jrP_expon : jrPaths (.dict [.str "expon"] [.list [na]]) = evalnf% (jrPaths (.dict [.str "expon"] [.list [na]])) := by kernel_rfl
+theorem jrP_scalar : jrPaths na = evalnf% (jrPaths na) := by kernel_rfl
+theorem jrP_two : jrPaths (.dict [.str "const", .str "uniform"] [.list [na], .list [na, nb]]) = evalnf% (jrPaths (.dict [.str "const", .str "uniform"] [.list [na], .list [na, nb]])) := by kernel_rfl
+theorem jrP_unknown : jrPaths (.dict [.str "gamma"] [.list [na]]) = evalnf% (jrPaths (.dict [.str "gamma"] [.list [na]])) := by kernel_rfl
+theorem jrP_badlen : jrPaths (.dict [.str "expon"] [.list [na, nb]]) = evalnf% (jrPaths (.dict [.str "expon"] [.list [na, nb]])) := by kernel_rfl
+theorem jrP_notlist : jrPaths (.dict [.str "uniform"] [na]) = evalnf% (jrPaths (.dict [.str "uniform"] [na])) := by kernel_rfl
+
+macro "jr_finish" : tactic =>
+  `(tactic| (all_goals intro h
+             all_goals simp [Obs.eval, Obs.evalList, NTerm.eval, ITerm.eval, BTerm.eval, rhoJr, na, nb, Config.uniform] at h ⊢))
+
+/-- **a two-element list and `{"uniform": [a, b]}` are the model's `uniform u a b = u·(b − a) + a`** with one
+draw `u = random()`; `{"const": [a]}` and a bare number are that number without any draw;
+`{"normal": [a, b]}` is one `gauss(a, b)`; `{"expon": [a]}` is `a · −log(u)` with one draw -/
+theorem json_random_src (u g a b : K) :
+    resultG jrObs (rhoJr u g a b) jrEnv FUEL "JsonRandom.random" [.ref 1, .list [na, nb]] jrSt
+      = .tuple [.num (Config.uniform u a b), .tuple [.str "random"]] ∧
+    resultG jrObs (rhoJr u g a b) jrEnv FUEL "JsonRandom.random" [.ref 1, .dict [.str "uniform"] [.list [na, nb]]] jrSt
+      = .tuple [.num (Config.uniform u a b), .tuple [.str "random"]] ∧
+    resultG jrObs (rhoJr u g a b) jrEnv FUEL "JsonRandom.random" [.ref 1, .dict [.str "const"] [.list [na]]] jrSt
+      = .tuple [.num a, .tuple []] ∧
+    resultG jrObs (rhoJr u g a b) jrEnv FUEL "JsonRandom.random" [.ref 1, na] jrSt
+      = .tuple [.num a, .tuple []] ∧
+    resultG jrObs (rhoJr u g a b) jrEnv FUEL "JsonRandom.random" [.ref 1, .dict [.str "normal"] [.list [na, nb]]] jrSt
+      = .tuple [.num g, .tuple [.str "gauss"]] ∧
+    resultG jrObs (rhoJr u g a b) jrEnv FUEL "JsonRandom.random" [.ref 1, .dict [.str "expon"] [.list [na]]] jrSt
+      = .tuple [.num (a * -(PyNum.log u)), .tuple [.str "random"]] := by
+  refine ⟨?_, ?_, ?_, ?_, ?_, ?_⟩
+  · apply resultG_eq_of_pathsP (by intro x; simp)
+    show ∀ p ∈ jrPaths (.list [na, nb]), _
+    py_paths jrP_list
+    jr_finish
+  · apply resultG_eq_of_pathsP (by intro x; simp)
+    show ∀ p ∈ jrPaths (.dict [.str "uniform"] [.list [na, nb]]), _
+    py_paths jrP_unif
+    jr_finish
+  · apply resultG_eq_of_pathsP (by intro x; simp)
+    show ∀ p ∈ jrPaths (.dict [.str "const"] [.list [na]]), _
+    py_paths jrP_const
+    jr_finish
+  · apply resultG_eq_of_pathsP (by intro x; simp)
+    show ∀ p ∈ jrPaths na, _
+    py_paths jrP_scalar
+    jr_finish
+  · apply resultG_eq_of_pathsP (by intro x; simp)
+    show ∀ p ∈ jrPaths (.dict [.str "normal"] [.list [na, nb]]), _
+    py_paths jrP_norm
+    jr_finish
+  · apply resultG_eq_of_pathsP (by intro x; simp)
+    show ∀ p ∈ jrPaths (.dict [.str "expon"] [.list [na]]), _
+    py_paths jrP_expon
+    jr_finish
+
+/-- ill-formed specifications are refused (`ValueError`) before any draw: a list that is not a pair, two
+distribution keys, an unknown key, a wrong number of parameters, parameters that are not a list -/
+theorem json_random_src_refusals (u g a b : K) :
+    resultG jrObs (rhoJr u g a b) jrEnv FUEL "JsonRandom.random" [.ref 1, .list [na, nb, na]] jrSt = .err (.raise "ValueError") ∧
+    resultG jrObs (rhoJr u g a b) jrEnv FUEL "JsonRandom.random"
+        [.ref 1, .dict [.str "const", .str "uniform"] [.list [na], .list [na, nb]]] jrSt = .err (.raise "ValueError") ∧
+    resultG jrObs (rhoJr u g a b) jrEnv FUEL "JsonRandom.random" [.ref 1, .dict [.str "gamma"] [.list [na]]] jrSt
+      = .err (.raise "ValueError") ∧
+    resultG jrObs (rhoJr u g a b) jrEnv FUEL "JsonRandom.random" [.ref 1, .dict [.str "expon"] [.list [na, nb]]] jrSt
+      = .err (.raise "ValueError") ∧
+    resultG jrObs (rhoJr u g a b) jrEnv FUEL "JsonRandom.random" [.ref 1, .dict [.str "uniform"] [na]] jrSt
+      = .err (.raise "ValueError") := by
+  refine ⟨?_, ?_, ?_, ?_, ?_⟩
+  · apply resultG_eq_of_pathsP (by intro x; simp)
+    show ∀ p ∈ jrPaths (.list [na, nb, na]), _
+    py_paths jrP_list3
+    jr_finish
+  · apply resultG_eq_of_pathsP (by intro x; simp)
+    show ∀ p ∈ jrPaths (.dict [.str "const", .str "uniform"] [.list [na], .list [na, nb]]), _
+    py_paths jrP_two
+    jr_finish
+  · apply resultG_eq_of_pathsP (by intro x; simp)
+    show ∀ p ∈ jrPaths (.dict [.str "gamma"] [.list [na]]), _
+    py_paths jrP_unknown
+    jr_finish
+  · apply resultG_eq_of_pathsP (by intro x; simp)
+    show ∀ p ∈ jrPaths (.dict [.str "expon"] [.list [na, nb]]), _
+    py_paths jrP_badlen
+    jr_finish
+  · apply resultG_eq_of_pathsP (by intro x; simp)
+    show ∀ p ∈ jrPaths (.dict [.str "uniform"] [na]), _
+    py_paths jrP_notlist
+    jr_finish
+
+end Pams.Src
